@@ -29,14 +29,22 @@ ORDER = {"LOW": 0, "MID": 1, "HIGH": 2}
 
 
 def check(model: Model, rep: Report, tier: str):
-    q1(model, rep)
-    q2(model, rep)
-    q3(model, rep)
-    q4_q5(model, rep)
-    q6(model, rep)
-    q7(model, rep)
-    q9(model, rep)
-    q8(model, rep)
+    with rep.isolated():
+        q1(model, rep)
+    with rep.isolated():
+        q2(model, rep)
+    with rep.isolated():
+        q3(model, rep)
+    with rep.isolated():
+        q4_q5(model, rep)
+    with rep.isolated():
+        q6(model, rep)
+    with rep.isolated():
+        q7(model, rep)
+    with rep.isolated():
+        q9(model, rep)
+    with rep.isolated():
+        q8(model, rep)
 
 
 def q1(model: Model, rep: Report):
